@@ -40,6 +40,10 @@ func bundledEngine(ctx context.Context, name string, hash, noise, depth uint, bo
 			opts = append(opts, uci.UseBook(bernstein.NewBook(), seed))
 		}
 		return engine.New(ctx, "BERNSTEIN", "t", s, engine.WithOptions(engine.Options{Depth: depth, Noise: noise, Hash: hash}), engine.WithTable(smallTable)), opts
+	case "bernstein-nolimit":
+		// cmd/bernstein -branch 0: "zero if no limit"
+		s := search.AlphaBeta{Explore: bernstein.PlausibleMoveTable{Limit: 0}.Explore, Eval: search.Leaf{Eval: bernstein.Eval{Factor: 20}}}
+		return engine.New(ctx, "BERNSTEIN", "t", s, engine.WithOptions(engine.Options{Depth: depth, Noise: noise, Hash: hash}), engine.WithTable(smallTable)), opts
 	case "sargon":
 		points := &sargon.Points{}
 		s := sargon.Hook{Eval: search.AlphaBeta{Explore: sargon.SkipUnderPromotions, Eval: sargon.OnePlyIfChecked{Leaf: search.Leaf{Eval: points}}}, Hook: points}
